@@ -242,10 +242,15 @@ def check(run):
     try:
         prog = mir.Program(mir.dump_mir())
         ok, detail, nq = from_parse_error_total(prog)
+        import native
+        nn, nbad = native.sweep_error_tokens()
+        run.validated += nn
         if ok:
             run.holds('every non-User parse error becomes Some(Error diagnostic) (from_parse_error, all variants)', 'M', queries=nq)
+            if nbad:
+                run.inconclusive('native sweep of long / multi-byte offending tokens', 'replay', 'discrepancy not explained by a solver verdict: %s' % str(nbad[0])[:300])
         else:
-            run.violated('parse error becomes an Error diagnostic', 'M', 'from_parse_error:' + detail[0][:60], {'detail': detail}, True, queries=nq)
+            run.violated('parse error becomes an Error diagnostic', 'M', 'from_parse_error:' + detail[0][:60], {'detail': detail, 'native': nbad[:2]}, bool(nbad), queries=nq)
     except mir.Unsupported as e:
         run.inconclusive('from_parse_error', 'M', str(e))
     src = open(gen).read()
